@@ -245,7 +245,7 @@ def install_default_models(e):
                               "link_layer": h_link_layer, "callback": h_callback, "timer": h_timer,
                               "thread": h_thread, "cbf_buffer": make_keyed_map_handler(_fresh_timer),
                               "loc_t": make_keyed_map_handler(_fresh_any), "time_fn": h_time_fn, "any_list": h_any_list, "datetime": h_datetime,
-                              "nearby_map": make_keyed_map_handler(_fresh_any)})
+                              "nearby_map": make_keyed_map_handler(_fresh_any), "keyed_keys": h_keyed_keys})
     e.external_handlers.update({
         "threading.Lock": x_lock, "threading.RLock": x_lock, "threading.Event": x_event, "threading.Timer": x_timer,
         "threading.Thread": x_thread,
@@ -259,9 +259,64 @@ def install_default_models(e):
     })
 
 
+# ---------------------------------------------------------------------------------------------- structural keys
+def skey(e, st, v):
+    """structural key of a value: equal keys mean syntactically identical content (used to make the coder and the hash
+    deterministic FUNCTIONS of their argument: same content, same result; different content, unrelated results)"""
+    keep = e.__dict__.setdefault("_skey_keep", [])
+    if isinstance(v, Ref):
+        o = st.obj(v)
+        if o.kind in ("list", "set", "deque"):
+            return ("L", tuple(skey(e, st, x) for x in o.items))
+        if o.kind == "dict":
+            return ("D", tuple((skey(e, st, k), skey(e, st, p), skey(e, st, x)) for k, p, x in o.items))
+        return ("R", v.addr)
+    if isinstance(v, TupleV):
+        return ("T", tuple(skey(e, st, x) for x in v.items))
+    if isinstance(v, StrV):
+        return ("s", v.s)
+    if isinstance(v, BytesV):
+        out = []
+        for g in v.segs:
+            out.append(tuple(skey(e, st, x) if not isinstance(x, (int, str)) else x for x in g))
+        return ("b", tuple(out))
+    if isinstance(v, Opt):
+        return ("O", skey(e, st, v.isnone), skey(e, st, v.val))
+    if isinstance(v, Opaque):
+        return ("o", v.typ, str(v.ident))
+    if isinstance(v, Rec):
+        return ("rec", v.cls.qual if hasattr(v.cls, "qual") else str(v.cls), tuple((k, skey(e, st, x)) for k, x in sorted(v.f.items())))
+    if hasattr(v, "get_id"):
+        keep.append(v)
+        return ("t", v.get_id())
+    if v is NONE or v is None:
+        return ("N",)
+    if isinstance(v, (int, str, bool)):
+        return ("c", v)
+    return ("?", type(v).__name__, id(v))
+
+
 # ---------------------------------------------------------------------------------------------- symbolic-key maps
 def _map_entries(st, o):
     return st.ghost.get("map:" + str(o.ident), ())
+
+
+def _map_epoch(st, o):
+    """bumped by every havoc of the map (contract application): the fixed initial content is per epoch"""
+    return st.ghost.get("mapepoch:" + str(o.ident), (0,))[0]
+
+
+def map_havoc(e, st, o, make_value):
+    """the map object keeps its identity; every tracked key gets an arbitrary new presence and value, untouched keys a
+    new epoch of arbitrary content"""
+    ents = []
+    for (k, p, v) in _map_entries(st, o):
+        st, nv = make_value(st)
+        ents.append((k, z3.Bool(e.fresh("map_has")), nv))
+    g = dict(st.ghost)
+    g["map:" + str(o.ident)] = tuple(ents)
+    g["mapepoch:" + str(o.ident)] = (_map_epoch(st, o) + 1,)
+    return st._clone(ghost=g)
 
 
 def _map_find(e, st, o, key):
@@ -338,14 +393,19 @@ def _map_find_alts(e, st, o, key):
     yield from go(st, 0)
 
 
-def make_keyed_map_handler(fresh_value):
+def make_keyed_map_handler(fresh_value, initial=None):
     """dict whose keys are symbolic: only the entries touched on a path are tracked; an untouched key is present or
-    absent arbitrarily and holds an arbitrary value of the map's value kind"""
+    absent arbitrarily and holds an arbitrary value of the map's value kind.
+    `initial(e, st, o, key) -> (presence, value)`: if given, the content at untouched keys is this FIXED FUNCTION of the
+    key's value (per havoc epoch), so equal keys agree whatever their syntactic form"""
     def lookup(e, st, o, key):
         for s1, idx in _map_find_alts(e, st, o, key):
             if idx is None:
-                p = z3.Bool(e.fresh("map_has"))
-                s1, v = fresh_value(e, s1)
+                if initial is not None:
+                    p, v = initial(e, s1, o, key)
+                else:
+                    p = z3.Bool(e.fresh("map_has"))
+                    s1, v = fresh_value(e, s1)
                 s1 = _map_set(s1, o, None, key, p, v)
                 idx = len(_map_entries(s1, o)) - 1
             yield s1, idx
@@ -395,7 +455,17 @@ def make_keyed_map_handler(fresh_value):
                     yield _map_set(s0.assume(z3.Not(p)), o, idx, k, z3.BoolVal(True), args[1]), args[1]
         else:
             raise Unsupported(f"keyed map .{name}")
+    h.initial = initial
     return h
+
+
+def h_keyed_keys(e, st, o, name, args, kwargs):
+    """`k in m.keys()` is `k in m`"""
+    if name == "__contains__":
+        m = o.data["map"]
+        yield from e.opaque_handlers[m.typ](e, st, m, "__contains__", args, kwargs)
+    else:
+        raise Unsupported(f"keys view .{name}")
 
 
 def _fresh_any(e, st):
